@@ -57,6 +57,9 @@ MUTATIONS = {
                                  "        for t_ in indexes:\n            self.status[t_] = '-'\n            self.iterations[t_] = -1\n\n        # Loop through results information and update object and return values\n")]),
     # layout: the equation comment is emitted verbatim, so a line break inside it would land as bare text
     'comment-with-newline': (1, [("        block = f'! {equation}\\n' + ", "        block = f'! {equation[:len(equation) // 2]}\\n{equation[len(equation) // 2:]}\\n' + ")]),
+    # entry point x indexed left-hand side: _evaluate writes back only period t of what the engine returned
+    'evaluate-writes-back-only-t': (1, [("        # If here, store the values back to this Python instance\n        self.values = solved_values\n",
+                                         "        # If here, store the values back to this Python instance\n        for name_, row_ in zip(self.names, solved_values):\n            self.__dict__['_' + name_][t] = row_[t]\n")]),
     # harmless: must stay exit 0
     'refactor-rename-reorder': (0, [("variables_to_numbers", "numbering"),
                                     ("    endogenous = [s.name for s in symbols if s.type == Type.ENDOGENOUS]\n    exogenous  = [s.name for s in symbols if s.type == Type.EXOGENOUS]\n",
